@@ -78,7 +78,11 @@ Proof.
     apply TI_close_ret. eapply TIall_tn; [apply tn_close_transport|]. exact H.
 Qed.
 Lemma TI_close_read_resume s t k d : TIall s -> d <= now s + c_close_tmo c -> TIall (close_read_resume c s t k d).
-Proof. intros H Hd. unfold close_read_resume. destruct (q_buf s); [apply TI_close_exc; exact H|apply TI_close_read_loop; assumption]. Qed.
+Proof.
+  intros H Hd. unfold close_read_resume. destruct (q_buf s); [|apply TI_close_read_loop; assumption].
+  destruct (c_side c); [apply TI_close_exc; exact H|]. destruct (_ && _); [|apply TI_close_exc; exact H].
+  apply TI_close_ret. eapply TIall_tn; [apply tn_close_transport|]. exact H.
+Qed.
 Lemma TI_server_close_tail s t k : TIall s -> TIall (server_close_tail c s t k).
 Proof.
   intros H. unfold server_close_tail. destruct (closing s).
@@ -124,9 +128,9 @@ Proof.
       destruct raised; cbn [lres_st]; [apply TI_finish|]; exact H1.
     + destruct (c_autoping c); cbn [lres_st]; [exact H|apply TI_finish; exact H].
     + destruct (_ && _); cbn [lres_st]; [apply TI_close_entry|apply TI_finish]; (eapply TIall_tn; [|exact H]; reflexivity).
-    + apply TI_finish. destruct (c_side c); (eapply TIall_tn; [|exact H]; reflexivity).
-  - cbn [lres_st]. apply TI_close_entry. eapply TIall_tn; [|exact H]; reflexivity.
-  - cbn [lres_st]. apply TI_close_entry. eapply TIall_tn; [|exact H]; reflexivity.
+    + apply TI_finish. destruct (c_side c); [destruct (closed s)|]; (eapply TIall_tn; [|exact H]; reflexivity).
+  - cbn [lres_st]. apply TI_close_entry. destruct (c_side c); [destruct (closed s)|]; (eapply TIall_tn; [|exact H]; reflexivity).
+  - cbn [lres_st]. apply TI_close_entry. destruct (closed s); (eapply TIall_tn; [|exact H]; reflexivity).
   - cbn [lres_st]. apply TI_finish. destruct (c_side c); [exact H|eapply TIall_tn; [|exact H]; reflexivity].
   - cbn [lres_st]. apply TI_finish. destruct (c_side c); [exact H|eapply TIall_tn; [|exact H]; reflexivity].
 Qed.
@@ -170,7 +174,7 @@ Proof.
     pose proof (TI_recv_handle _ t r (TI_recv_finally _ HX)) as H1.
     destruct (recv_handle c _ t r); cbn [lres_st] in H1; [exact H1|apply TI_recv_loop; exact H1].
   - destruct (t_fut _); [|exact H]. destruct (was_cancelled _).
-    + apply TI_finish. destruct (c_side c); [eapply TIall_tn; [|exact H]; reflexivity|exact H].
+    + apply TI_finish. destruct (c_side c); [eapply TIall_tn; [apply tn_abnormal|exact H]|exact H].
     + destruct (c_side c); [apply TI_server_close_tail|apply TI_client_close_body]; exact H.
   - destruct (t_fut _) as [fr|] eqn:Ef; [|exact H]. destruct (was_cancelled _) eqn:Ew.
     + destruct (is_timeout _).
@@ -362,7 +366,8 @@ Theorem wake_keeps_deadline c s t k d :
   (exists r, t_pc (tasks s' t) = PDone r) \/ (t_pc (tasks s' t) = PCloseRead k /\ t_tmo (tasks s' t) = Some d).
 Proof.
   intros Ep Ef Et He Hc. unfold run_wake, was_cancelled. cbn zeta. rewrite Ep, Ef, He, Hc. cbn [orb].
-  rewrite Et. unfold close_read_resume. destruct (q_buf s) eqn:Eb; [left; apply pc_close_exc|].
+  rewrite Et. unfold close_read_resume. destruct (q_buf s) eqn:Eb.
+  { left. destruct (c_side c); [apply pc_close_exc|]. destruct (_ && _); [apply pc_close_ret|apply pc_close_exc]. }
   rewrite <- Eb. apply close_read_loop_deadline.
 Qed.
 
